@@ -299,6 +299,30 @@ def main():
     A('/-- the ASTs of `dcmstack.dcm_time_to_sec` and `extract.tm_to_seconds` are equal modulo docstring -/')
     A('def Gen.timeFnBodiesIdentical : Bool := ' + ('true' if same else 'false'))
     A('')
+    # dcmstack_cli.main: are the module default regex lists bound directly and then extended in place?
+    cli_main = find_func(cli.body, 'main')
+    aliases = None
+    if cli_main is None:
+        missing.append('dcmstack_cli.main')
+    else:
+        bound = {}
+        aliases = False
+        for n in ast.walk(cli_main):
+            if isinstance(n, ast.Assign) and len(n.targets) == 1 and isinstance(n.targets[0], ast.Name) \
+                    and n.targets[0].id in ('include_regexes', 'exclude_regexes'):
+                v = n.value
+                bound[n.targets[0].id] = isinstance(v, ast.Attribute) and v.attr in ('default_key_incl_res', 'default_key_excl_res')
+        for n in ast.walk(cli_main):
+            if isinstance(n, ast.AugAssign) and isinstance(n.target, ast.Name) and bound.get(n.target.id):
+                aliases = True
+            if isinstance(n, ast.Call) and isinstance(n.func, ast.Attribute) and n.func.attr in ('extend', 'append') \
+                    and isinstance(n.func.value, ast.Name) and bound.get(n.func.value.id):
+                aliases = True
+        if set(bound) != {'include_regexes', 'exclude_regexes'}:
+            missing.append('dcmstack_cli.main filter lists')
+    A('/-- `dcmstack_cli.main` binds a module default regex list itself and then extends it in place -/')
+    A('def Gen.cliAliasesDefaults : Bool := ' + ('true' if aliases else 'false'))
+    A('')
     A('/-- names the translator could not extract as literals (must be empty) -/')
     A('def Gen.missing : List String := ' + lean_strlist(missing))
     A('')
